@@ -88,6 +88,26 @@ func c13UniformDH(c *Ctx, p *Prog) {
 		if bigObj(p, sa[1]) != sbObj {
 			bad = "SetBit does not clear the bit of the exponent itself"
 		}
+		// nothing else modifies the exponent: a reduction or any other arithmetic on it after the bit
+		// was cleared can set bit 0 again (or change the value the coin was taken from)
+		allInstrs(gk, func(ins ssa.Instruction) {
+			in, isCall := ins.(ssa.CallInstruction)
+			if !isCall {
+				return
+			}
+			sc := in.Common().StaticCallee()
+			if sc == nil || sc.Signature.Recv() == nil || !isNamedType(sc.Signature.Recv().Type(), "math/big", "Int") || len(in.Common().Args) == 0 {
+				return
+			}
+			if bigObj(p, in.Common().Args[0]) != sbObj || in == ssa.CallInstruction(sb) {
+				return
+			}
+			switch sc.Name() {
+			case "SetBytes", "Bit", "Bytes", "FillBytes", "Cmp", "CmpAbs", "BitLen", "Sign", "String", "Text", "IsInt64", "IsUint64", "TrailingZeroBits", "ProbablyPrime":
+			default:
+				bad = "the exponent is modified by " + sc.Name() + " at " + p.InstrPos(in) + ": it need no longer be the even number the coin belongs to"
+			}
+		})
 		sua := sub.Common().Args
 		if !isGlobalLoadMod(sua[1], "modpGroup") || bigObj(p, sua[2]) != expObj {
 			bad = "the alternative public value is not modpGroup - X"
@@ -417,6 +437,60 @@ func c13Scan(c *Ctx, p *Prog) {
 		ob.Violate("%s", bad)
 	} else {
 		ob.HoldNT("bytes.Index(rxBuf.Bytes(), rxMagic); pos != -1 && pos <= 8194; rxBuf.Next(pos+len(rxMagic))")
+	}
+	// the scanner blocks on a read before it looks at the buffer: nothing else may put bytes there
+	ob = c.Obl("R3", tC+".rxBuf#writers", "the handshake receive buffer is filled only by the magic scanner itself, with the bytes of the read it has just done (bytes stashed there by anyone else would sit unseen while the scanner blocks on its next read)")
+	bad = ""
+	nw := 0
+	for _, fn := range p.Funcs {
+		allInstrs(fn, func(in ssa.Instruction) {
+			call, ok := in.(ssa.CallInstruction)
+			if !ok {
+				return
+			}
+			r, m, args := recvOf(call)
+			if r != nil && isFieldLoad(r, tC, "rxBuf") {
+				if !accWriteMethods[m] {
+					return
+				}
+				nw++
+				if fn != fm {
+					bad = "conn.rxBuf is written in " + p.FuncKey(fn) + " at " + p.InstrPos(call)
+					return
+				}
+				// Write(buf[:n]) with n the count of a connection read that dominates it
+				okSrc := false
+				if sl, isSl := unspill(args[0]).(*ssa.Slice); isSl && sl.Low == nil && sl.High != nil {
+					if rc, idx := callOf(unspill(sl.High)); rc != nil && idx == 0 && rc.Common().IsInvoke() && rc.Common().Method.Name() == "Read" &&
+						len(rc.Common().Args) == 1 && bufObjKey(rc.Common().Args[0]) == bufObjKey(sl) && instrDominates(rc, call) {
+						okSrc = true
+					}
+				}
+				if !okSrc {
+					bad = "the bytes written to conn.rxBuf at " + p.InstrPos(call) + " are not buf[:n] of the read just done"
+				}
+				return
+			}
+			for _, a := range call.Common().Args {
+				if isFieldLoad(a, tC, "rxBuf") && (r == nil || a != r) {
+					id := p.CalleeID(call.Common())
+					if id == "bytes.NewBuffer" || strings.HasPrefix(id, "builtin:") {
+						continue
+					}
+					if sc := call.Common().StaticCallee(); sc != nil && !p.inModule(sc) && fn != fm {
+						bad = "conn.rxBuf is handed to " + id + " in " + p.FuncKey(fn)
+					}
+				}
+			}
+		})
+	}
+	if nw == 0 && bad == "" {
+		bad = "no writer of conn.rxBuf found"
+	}
+	if bad != "" {
+		ob.Violate("%s", bad)
+	} else {
+		ob.HoldNT("%d writer(s), in findPeerMagic, each Write(buf[:n]) of the preceding read", nw)
 	}
 	// bounded: covered by C10.R2 instance; repeat here
 	ob = c.Obl("R3", "transports/obfs3:(*obfs3Conn).findPeerMagic#bounded", "peers that send more than MAX_PADDING + 32 bytes without the magic are rejected: the scan loop iterates again only while rxBuf.Len() < 8226")
